@@ -402,7 +402,7 @@ func tapeVals(t []tapeEntry) []uint64 {
 
 func runNativeTapes(gr *groupRun, tapes []nativeTape) ([]nativeOut, error) {
 	var names []string
-	for _, fn := range gr.ld.harnesses {
+	for _, fn := range gr.ld.allHarnesses {
 		if fn.Signature.Params().Len() == 0 {
 			names = append(names, fn.Name())
 		}
